@@ -112,7 +112,8 @@ class Observer:
                 "lift_alloc", "sink_alloc", "delete_buffer", "delete_pass", "expand_dim", "bind_expr",
                 "divide_dim", "mult_dim", "rearrange_dim", "resize_dim", "unroll_buffer",
                 "split_write", "merge_writes", "fold_into_reduce", "lift_reduce_constant", "inline_assign", "rewrite_expr",
-                "inline", "extract_subproc"}
+                "inline", "extract_subproc", "commute_expr", "left_reassociate_expr", "divide_with_recompute",
+                "stage_mem", "reuse_buffer"}
 
     def rwcheck(self, p, att, pj, pj2, hist):
         """correspondence A: the real output is the model rewrite (lean/ExoModel/Rewrite.lean)"""
@@ -128,7 +129,13 @@ class Observer:
             k = a.get("n", 1)
         elif op == "extract_subproc":
             k = a.get("n", 1)
-        elif op in ("bind_expr", "rewrite_expr"):
+        elif op == "divide_with_recompute":
+            k = a["outer_stride"]
+        elif op == "stage_mem":
+            k, flag = 1, bool(a["accum"])
+        elif op == "reuse_buffer":
+            k = sum((2 * i + (st == "orelse") + 1) * 256 ** n for n, (st, i) in enumerate(a["other"]))
+        elif op in ("bind_expr", "rewrite_expr", "commute_expr", "left_reassociate_expr"):
             path = [st for st in path if st[0] in ("body", "orelse")]
         elif op in ("divide_dim", "resize_dim", "unroll_buffer"):
             if op == "resize_dim" and a.get("fold"):
